@@ -76,14 +76,18 @@ theorem EvalFoot.trans {w0 w1 w2 : World} (a : EvalFoot w0 w1) (b : EvalFoot w1 
     · exact b.new h h1
 
 /-- A call whose success changes nothing in the abstract world (`fork`, `waitpid`, `stat`). -/
-theorem core_inert (w : World) (c : Call) (r : Res) (hc : c = .fork ∨ c = .waitpid ∨ ∃ p, c = .stat p) : core w c r = w := by
-  rcases hc with rfl | rfl | ⟨p, rfl⟩ <;> cases r <;> rfl
+theorem core_inert (w : World) (c : Call) (r : Res) (hc : c.isFork = true ∨ c = .waitpid ∨ ∃ p, c = .stat p) : core w c r = w := by
+  rcases hc with hf | rfl | ⟨p, rfl⟩
+  · obtain ⟨av, s, rfl⟩ := Call.isFork_iff.1 hf
+    cases r <;> rfl
+  · cases r <;> rfl
+  · cases r <;> rfl
 
 theorem core_openPath_ok (w : World) (p : Bytes) (v : Nat) : core w (.openPath p) (.ok v) = (w.newHandle .other).1 := rfl
 
 /-- util.c `exec(argv, -1)` under every fault plan stays in the footprint. -/
-theorem evalFoot_execP {w0 w : World} (ef : EvalFoot w0 w) :
-    wp (EvalFoot w0) (execP none) (fun _ w' => EvalFoot w0 w') w := by
+theorem evalFoot_execP (argv : List Bytes) {w0 w : World} (ef : EvalFoot w0 w) :
+    wp (EvalFoot w0) (execP argv none) (fun _ w' => EvalFoot w0 w') w := by
   unfold execP
   simp only [bind_eq, pure_eq, call_bind]
   refine wp_bind_mono (R := fun dn w' => EvalFoot w0 w' ∧ ∀ h, dn = some (some h) → w0.handles.length ≤ h) ?_ ?_
@@ -103,7 +107,7 @@ theorem evalFoot_execP {w0 w : World} (ef : EvalFoot w0 w) :
     | some devnull =>
       dsimp only
       refine wp_call_any fun r => ?_
-      have ef2 : EvalFoot w0 (stepWorld w1 .fork r) := EvalFoot.step_of_core (core_inert w1 _ r (.inl rfl)) ef1
+      have ef2 : EvalFoot w0 (stepWorld w1 (.fork argv (childStdin none devnull)) r) := EvalFoot.step_of_core (core_inert w1 _ r (.inl rfl)) ef1
       refine ⟨ef2, ?_⟩
       refine wp_bind_mono (R := fun _ w' => EvalFoot w0 w') ?_ ?_
       · split
@@ -125,7 +129,7 @@ theorem evalFoot_execP {w0 w : World} (ef : EvalFoot w0 w) :
 theorem evalFoot_sysCall (q : Req) {w0 w : World} (ef : EvalFoot w0 w) :
     wp (EvalFoot w0) (sysCall q) (fun _ w' => EvalFoot w0 w') w := by
   cases q with
-  | command av => exact wp_bind_mono (evalFoot_execP ef) fun _ _ h => h
+  | command av => exact wp_bind_mono (evalFoot_execP _ ef) fun _ _ h => h
   | isDir p =>
     refine wp_call_any fun r => ?_
     have ef1 : EvalFoot w0 (stepWorld w (.stat p) r) := EvalFoot.step_of_core (core_inert w _ r (.inr (.inr ⟨p, rfl⟩))) ef
